@@ -76,7 +76,7 @@ type scen struct {
 	Identity  bool              `json:"identity_ok"`
 	Expired   bool              `json:"expired"`
 	TsOK      bool              `json:"timestamp_ok"`
-	RevMode   int               `json:"revocation"` // 0 ok, 1 revoked, 2 unknown, 3 validator error
+	RevMode   int               `json:"revocation"` // 0 ok, 1 revoked, 2 unknown, 3 validator error, 4 one result too few, 5 a nil entry, 6 one result too many (all OK)
 	PM        int               `json:"pm"`         // 0 nil, 1 not installed, 2 metadata error, 3 plugin
 	Version   string            `json:"plugin_version,omitempty"`
 	Caps      []string          `json:"caps,omitempty"` // TI, Rev, Other
@@ -163,11 +163,13 @@ type lv struct {
 
 func run(a *Args) error {
 	rng := NewRng(a.Seed)
-	prelude := "From NV Require Import Base Regex Generated C02_Levels VerifyCore C02_Model.\nOpen Scope string_scope.\n"
-	w := NewCaseWriter(a, "C02", prelude, "case", "run")
-	w.Rule = "scenarios realised on the real verifier.Verify. Family table: every enforcement map reachable from {strict,permissive,audit} x legal overrides (24 maps, a random (level, override) representative each) x every subset of simultaneously failing native validations {trust store authenticity, identity, expiry, certificate time, revocation} (quick) resp. the full product {anchor found, load error, not anchored} x identity x expired x certificate time x revocation {ok, revoked, unknown, validator error} (thorough) x plugin situation {none, not installed, version too low, no verification capability, trusted-identity, revocation, both} x verdicts {success, failure, missing} x critical attributes {none, processed, unprocessed}; the cells that differ only in the map form a group on which monotonicity of acceptance is checked directly. Family random: malformed plugin headers, blank names, missing manager, metadata error, invalid versions, capability orders with foreign capabilities, plugin errors, nil verdict entries, non-critical attributes, integer-labelled critical attributes (COSE), corrupted envelopes, both envelope formats. Family versions: (plugin version, demanded minimum) pairs around SemVer precedence. Family corpus: the fixed defects and the known finding. Family illegal: level/override combinations GetVerificationLevel must refuse. non-trivial = at least one failed validation or a plugin header / extended attribute present; distinct = distinct scenario tuples"
+	// run_all (C02_Struct.v) = correspondence with the model + the oracle spec_ok on well-formed inputs + the
+	// contract-free oracle (acceptance rule, what is performed, what the plugin is asked, truthful results) on ALL inputs
+	prelude := "From NV Require Import Base Regex Generated C02_Levels VerifyCore C02_Model C02_Struct.\nOpen Scope string_scope.\n"
+	w := NewCaseWriter(a, "C02", prelude, "case", "run_all")
+	w.Rule = "scenarios realised on the real verifier.Verify. Family table: every enforcement map reachable from {strict,permissive,audit} x legal overrides (24 maps, a random (level, override) representative each) x every subset of simultaneously failing native validations {trust store authenticity, identity, expiry, certificate time, revocation} (quick) resp. the full product {anchor found, load error, not anchored} x identity x expired x certificate time x revocation {ok, revoked, unknown, validator error} (thorough) x plugin situation {none, not installed, version too low, no verification capability, trusted-identity, revocation, both} x verdicts {success, failure, missing} x critical attributes {none, processed, unprocessed}; the cells that differ only in the map form a group on which monotonicity of acceptance is checked directly. Family random: malformed plugin headers, blank names, missing manager, metadata error, invalid versions, capability orders with foreign capabilities, plugin errors, nil verdict entries, non-critical attributes, integer-labelled critical attributes (COSE), corrupted envelopes, both envelope formats. Family versions: (plugin version, demanded minimum) pairs around SemVer precedence. Family corpus: the fixed defects and the known finding. Family illegal: level/override combinations GetVerificationLevel must refuse. Family duplicates: a verification capability declared several times (outside wf_sc; judged by the contract-free oracle spec_all). Family revshape: validator answers with a result too few / too many / a nil entry (fix d78db00) under enforce, log, skip and with a revocation plugin. non-trivial = at least one failed validation or a plugin header / extended attribute present; distinct = distinct scenario tuples"
 	w.Assumptions = []string{
-		"plugin metadata lists each verification capability at most once (wf_sc)",
+		"plugin metadata lists each verification capability at most once (wf_sc): needed only for the clause 'each result type at most once, in the fixed order'; the acceptance rule, monotonicity, what is performed / asked and the truthfulness of the results are proved and checked without it (families random and duplicates)",
 		"semver validity/order of plugin versions are oracle facts computed with golang.org/x/mod/semver on a fixed version table (semantics proved in C20)",
 		"native validation facts (authentic, identity, expiry, certificate time, revocation) are realised with real certificates, stores and validators; their own semantics are C03/C04/C05/C06",
 		"the level seen by processSignature is the one GetVerificationLevel returns for the statement (model: C02_Levels.get_level over Generated.v)",
@@ -446,6 +448,14 @@ func run(a *Args) error {
 			}
 			results = append(results, &revresult.CertRevocationResult{Result: r})
 		}
+		switch s.RevMode {
+		case 4: // fix d78db00: not one result per certificate
+			results = results[:nChain-1]
+		case 5:
+			results[1] = nil
+		case 6:
+			results = append(results, &revresult.CertRevocationResult{Result: revresult.ResultOK})
+		}
 		script.Results, script.Err = results, nil
 		if s.RevMode == 3 {
 			script.Err = errors.New("mock: validator failure")
@@ -530,6 +540,10 @@ func run(a *Args) error {
 				}
 				var revs []string
 				for _, r := range script.Results {
+					if r == nil {
+						revs = append(revs, "nil")
+						continue
+					}
 					revs = append(revs, fmt.Sprintf("%p:%v:%d", r, r.Result, len(r.ServerResults)))
 				}
 				plugS := ""
@@ -1348,6 +1362,42 @@ func run(a *Args) error {
 	for k := 0; k < n; k++ {
 		exec(gen(k), nil)
 	}
+	// 9. duplicates: a verification capability listed more than once (outside wf_sc): the plugin is asked, and
+	// its verdict examined, once per occurrence; acceptance, what is performed and the reported outcomes must
+	// still follow the level (judged by the contract-free oracle)
+	dupCaps := [][]string{{"TI", "TI"}, {"Rev", "Rev"}, {"Rev", "TI", "Rev"}, {"TI", "Rev", "TI"}, {"TI", "Other", "TI", "Rev", "Rev"}}
+	dupLevels := []lv{{name: "strict"}, {name: "audit"}, {name: "strict", ov: map[string]string{"revocation": "skip"}},
+		{name: "permissive", ov: map[string]string{"authenticity": "log", "revocation": "enforce"}}}
+	for _, dc := range dupCaps {
+		for _, vd := range [][2]int{{1, 1}, {2, 1}, {1, 2}, {2, 2}, {0, 1}, {1, 0}} {
+			for li, l := range dupLevels {
+				s := plugScen("duplicates", l, dc...)
+				s.TI, s.Rev = vd[0], vd[1]
+				s.Identity = li%2 == 0
+				if li == 1 {
+					s.RevMode = 1
+				}
+				if li == 2 {
+					s.OtherCrit, s.Processed = []string{"foo"}, []string{"foo"}
+				}
+				exec(s, nil)
+			}
+		}
+	}
+	// 10. a validator answer that is not one result per certificate (fix d78db00) is a failed revocation
+	// validation like any other: rejected under enforce, reported under log, not consulted under skip / plugin
+	for _, rm := range []int{4, 5, 6} {
+		for _, l := range []lv{{name: "strict"}, {name: "permissive"}, {name: "audit"}, {name: "strict", ov: map[string]string{"revocation": "skip"}},
+			{name: "audit", ov: map[string]string{"revocation": "enforce"}}} {
+			s := base("revshape", l)
+			s.RevMode = rm
+			exec(s, nil)
+			s2 := plugScen("revshape", l, "Rev")
+			s2.RevMode = rm
+			exec(s2, nil)
+		}
+	}
+
 	w.Set("frame_checks_caller_owned_objects", frameChecked)
 	w.Set("monotonicity_pairs_checked_on_implementation", monoPairs)
 	w.Set("monotonicity_violations_on_implementation", monoViol)
